@@ -61,7 +61,7 @@ func genRecords(t *rapid.T, label string, max int) [][]byte {
 func TestC05(t *testing.T) {
 	rec := ev.Get("C05")
 	rec.Rule("syntactically valid ClientHellos without an acceptable ECH: no ECH / GREASE ECH (random or matching id and suite; enc usually 32 bytes, sometimes of a length or value the KEM refuses) / authentic ECH to a key the server lacks / ECH present but TLS 1.3 not offered / no extension block / empty block; sizes to 16 KiB; key sets none, unrelated, same-id; followed by 0..5 arbitrary records each way. Oracle: bytes read from Conn == bytes sent (record version of the hello excepted), bytes written reach the client unchanged, ServerName/ALPN == harness decoder == crypto/tls ClientHelloInfo. distinct = hello hash; non-trivial = unknown extension type, GREASE ECH or no TLS 1.3")
-	rec.Mandatory("odd_legacy_version", "kind:no_ech", "kind:grease", "kind:grease_matching_id", "kind:foreign_key", "kind:no_tls13_with_ech", "kind:no_ext_block", "kind:empty_ext_block", "size_ge12k", "tls10_only", "keys:none", "keys:unrelated", "keys:same_id", "tls_oracle_used", "enc_unusable_for_kem", "no_tls13_high_legacy_version", "other_connection_accepted_before_first_read")
+	rec.Mandatory("odd_legacy_version", "kind:no_ech", "kind:grease", "kind:grease_matching_id", "kind:foreign_key", "kind:no_tls13_with_ech", "kind:no_ext_block", "kind:empty_ext_block", "size_ge12k", "tls10_only", "keys:none", "keys:unrelated", "keys:same_id", "tls_oracle_used", "enc_unusable_for_kem", "no_tls13_high_legacy_version", "other_connection_accepted_before_first_read", "record_filled_to_the_limit")
 	rapid.Check(t, func(t *rapid.T) {
 		pub := hello.GenName(t, "public_name", 253)
 		key := drawKey(t, "key", -1, pub)
@@ -131,6 +131,21 @@ func TestC05(t *testing.T) {
 			// legacy_version is just two bytes for a pass-through: unusual values must survive too
 			h.Version = rapid.SampledFrom([]uint16{0x0304, 0x0300, 0x7f1c, 0xfefd, 0x0a0a, 0xffff}).Draw(t, "odd_version_v")
 			cl0 = append(cl0, "odd_legacy_version")
+		}
+		if (kind == "no_ech" || kind == "grease") && rapid.IntRange(0, 7).Draw(t, "exact_size") == 0 {
+			// a hello that fills its record to the last bytes: 16384 - d bytes of handshake message
+			want := 16384 - rapid.IntRange(0, 6).Draw(t, "below_limit")
+			if cur := len(h.Message()); cur+4 <= want {
+				pad := hello.Ext{Type: 21, Data: make([]byte, want-cur-4)}
+				if n := len(h.Exts); n > 0 && h.Exts[n-1].Type == hello.ExtPSK {
+					h.Exts = append(h.Exts[:n-1], pad, h.Exts[n-1])
+				} else {
+					h.Exts = append(h.Exts, pad)
+				}
+				if h.Find(21) >= 0 && len(h.Message()) == want {
+					cl0 = append(cl0, "record_filled_to_the_limit")
+				}
+			}
 		}
 		msg := h.Message()
 		if len(msg) > 16384 {
